@@ -150,6 +150,9 @@ def run(ctx) -> None:
 
     # ---- R3 ---------------------------------------------------------------------
     check_ready_conjunction(ctx, "C01.R3")
+    from .c04 import check_stale_comparator
+
+    check_stale_comparator(ctx, "C01.R3")
 
     # ---- R4 ---------------------------------------------------------------------
     gstate = db.cls("runners._shared.types.GraphState")
@@ -234,8 +237,33 @@ def check_bound_class_from_bound_tables(ctx, rule: str) -> None:
         else:
             why = f"'{src(v) if v is not None else '?'}' is not a bind() table entry: signature defaults surfaced by a wrapper would be shared between runs instead of copied (nested != flat)"
         rep.add(rule, f"{gvs.qname}:BOUND-from-bind-table@{n - 1}", ok, f"{gvs.module.rel}:{r.lineno}", why)
-    if n < 2:
-        raise AnalysisError("get_value_source: fewer than two BOUND returns")
+    if n < 1:
+        raise AnalysisError("get_value_source: no BOUND return")
+    # a nested-graph node's own bindings have a BOUND path of their own (the outer graph's merged table does not
+    # contain them in every scope, e.g. when a default selection leaves the wrapper out of the computed spec)
+    inner = [x for x in cfg.nodes if x.kind == "stmt" and isinstance(x.ast, ast.Return) and _classify_return(x.ast) == "BOUND" and len(x.ast.value.elts) == 2 and any(isinstance(y, ast.Attribute) and y.attr in ("_graph", "graph") and isinstance(y.value, ast.Name) and y.value.id != "graph" for y in ast.walk(x.ast.value.elts[1]))]
+    rep.add(rule, f"{gvs.qname}:BOUND-inner-graph-path", bool(inner), gvs.loc(), "values bound on a nested graph are resolved as BOUND from the wrapper's own graph" if inner else "values bound on a nested graph have no BOUND path of their own: where the outer merged table lacks them they fall to the DEFAULT class and are deep-copied (or are not found at all)")
+
+
+def check_default_class_from_signature(ctx, rule: str) -> None:
+    """A value classified DEFAULT (deep-copied per resolution) is a signature default: it is obtained from
+    get_signature_default_for, never from a lookup that also answers with values bound on a nested graph
+    (those must reach the node as the very object that was bound)."""
+    db, rep = ctx.db, ctx.rep
+    gvs = db.func("runners._shared.helpers.get_value_source")
+    cfg = ctx.cfg(gvs)
+    rd = reaching_defs(cfg)
+    n = 0
+    for r in [x for x in cfg.nodes if x.kind == "stmt" and isinstance(x.ast, ast.Return) and _classify_return(x.ast) == "DEFAULT"]:
+        n += 1
+        v = r.ast.value.elts[1] if len(r.ast.value.elts) == 2 else None
+        vals = [v]
+        if isinstance(v, ast.Name):
+            vals = [x for _, x in defs_reaching(cfg, rd, r, v.id) if x is not None]
+        ok = bool(vals) and all(isinstance(x, ast.Call) and isinstance(x.func, ast.Attribute) and x.func.attr == "get_signature_default_for" for x in vals)
+        rep.add(rule, f"{gvs.qname}:DEFAULT-from-signature@{n - 1}", ok, f"{gvs.module.rel}:{r.lineno}", "the copied class holds signature defaults only" if ok else f"'{src(vals[0]) if vals else '?'}' is classified DEFAULT: for a nested-graph node that lookup also returns values bound on the inner graph, which are then deep-copied on every resolution instead of being shared")
+    if n < 1:
+        raise AnalysisError("get_value_source: no DEFAULT return")
 
 
 def _k(lst, x) -> int:
